@@ -3,7 +3,7 @@
 needs to manifest, which of our checks reported it."""
 import glob, json, os
 rows = []
-for d in sorted(glob.glob("/verif/seeded/*/")):
+for d in sorted(glob.glob("/verif/seeded/C*_*_m*/")):
     d = d.rstrip("/")
     m = json.load(open(os.path.join(d, "meta.json")))
     v = m.get("verification", {})
